@@ -67,6 +67,10 @@ pub enum ESpecError {
     /// Invalid IV length (must be 1-8 bytes)
     #[error("Invalid IV length: {0} bytes, must be 1-8")]
     InvalidIvLength(usize),
+
+    /// Specs nested deeper than the parser follows
+    #[error("ESpec nested deeper than {0} levels")]
+    NestingTooDeep(usize),
 }
 
 /// Encoding specification defining how to encode/compress data
